@@ -6,7 +6,12 @@
 
 #[derive(Clone, Debug)]
 pub struct Screen {
+    /// rows `base..`; rows scrolled off long ago are dropped (nothing ever moves the cursor up), so a session of any
+    /// length costs the same per byte
     pub lines: Vec<Vec<char>>,
+    /// number of rows dropped from the front of `lines`
+    pub base: usize,
+    /// absolute row of the cursor
     pub row: usize,
     pub col: usize,
     state: St,
@@ -35,6 +40,7 @@ impl Screen {
     pub fn new() -> Self {
         Self {
             lines: vec![Vec::new()],
+            base: 0,
             row: 0,
             col: 0,
             state: St::Normal,
@@ -45,6 +51,22 @@ impl Screen {
         }
     }
 
+    /// A copy that can be fed on its own: only the rows from the cursor's row on are copied (nothing moves the cursor up)
+    pub fn fork(&self) -> Self {
+        let i = (self.row - self.base).min(self.lines.len());
+        Self {
+            lines: self.lines[i..].to_vec(),
+            base: self.base + i,
+            row: self.row,
+            col: self.col,
+            state: self.state,
+            params: self.params.clone(),
+            utf8: self.utf8.clone(),
+            inconclusive: self.inconclusive.clone(),
+            bad_utf8: self.bad_utf8,
+        }
+    }
+
     fn unknown(&mut self, what: String) {
         if self.inconclusive.is_none() {
             self.inconclusive = Some(what);
@@ -52,10 +74,17 @@ impl Screen {
     }
 
     fn line_mut(&mut self) -> &mut Vec<char> {
-        while self.lines.len() <= self.row {
+        while self.base + self.lines.len() <= self.row {
             self.lines.push(Vec::new());
         }
-        &mut self.lines[self.row]
+        if self.lines.len() > 512 {
+            // keep the last 256 rows (one output script is a few dozen rows at most)
+            let drop = self.lines.len() - 256;
+            self.lines.drain(..drop);
+            self.base += drop;
+        }
+        let i = self.row - self.base;
+        &mut self.lines[i]
     }
 
     fn put(&mut self, c: char) {
@@ -207,17 +236,18 @@ impl Screen {
     }
 
     pub fn line_text(&self, row: usize) -> String {
-        let s: String = self.lines.get(row).map(|l| l.iter().collect()).unwrap_or_default();
+        let s: String = row.checked_sub(self.base).and_then(|i| self.lines.get(i)).map(|l| l.iter().collect()).unwrap_or_default();
         s.trim_end_matches(' ').to_string()
     }
 
+    /// every row by its absolute index (rows dropped long ago read as empty)
     pub fn all_lines(&self) -> Vec<String> {
-        (0..self.lines.len()).map(|r| self.line_text(r)).collect()
+        (0..self.base + self.lines.len()).map(|r| self.line_text(r)).collect()
     }
 
     pub fn is_last_row(&self) -> bool {
-        self.row + 1 >= self.lines.len()
-            || self.lines[self.row + 1..].iter().all(|l| l.iter().all(|c| *c == ' '))
+        let i = self.row - self.base;
+        i + 1 >= self.lines.len() || self.lines[i + 1..].iter().all(|l| l.iter().all(|c| *c == ' '))
     }
 
     /// pending partial escape or character (stream cut in the middle of something)
